@@ -25,6 +25,9 @@ use vharness::*;
 mod password;
 use password::{compute_md5_password, hash_password_argon2, PasswordStore};
 
+#[path = "../wiresrv.rs"]
+mod wiresrv;
+
 const KNOWN_BARE: &str = "C29/md5-bare-digest-accepted";
 
 fn hx(b: &[u8]) -> String {
@@ -369,89 +372,6 @@ fn gen_file_store(r: &mut Rng, pool: &[(String, String)], path: &std::path::Path
 // wire-level logins against the real server binary (connection.rs: handle_startup / authenticate)
 // ---------------------------------------------------------------------------------------------
 
-struct ServerProc {
-    child: std::process::Child,
-    port: u16,
-}
-impl Drop for ServerProc {
-    fn drop(&mut self) {
-        let _ = self.child.kill();
-        let _ = self.child.wait();
-    }
-}
-
-/// `cargo build -p vibesql-server` of the tree under test into a shared target directory (kept
-/// warm between runs), under a file lock; the binary is copied next to the run's scratch files
-fn build_server(scratch: &std::path::Path) -> Result<std::path::PathBuf, String> {
-    use std::os::unix::io::AsRawFd;
-    // next to the harness' own target directory (git-ignored; warmed by setup.sh; a shadow copy of
-    // /verif gets its own, pre-warmed by the rsync)
-    let target_s = format!("{}/harness/target-server", std::env::current_dir().map(|d| d.display().to_string()).unwrap_or_else(|_| ".".into()));
-    let target = target_s.as_str();
-    let _ = std::fs::create_dir_all(target);
-    let lock = std::fs::File::create(format!("{}.lock", target)).map_err(|e| e.to_string())?;
-    unsafe {
-        libc::flock(lock.as_raw_fd(), libc::LOCK_EX);
-    }
-    let out = std::process::Command::new("cargo")
-        .args(["build", "--manifest-path", "/repo/Cargo.toml", "-p", "vibesql-server", "--offline", "--quiet"])
-        .env("RUSTC_WRAPPER", "")
-        .env("CARGO_TARGET_DIR", target)
-        .env("CARGO_NET_OFFLINE", "true")
-        .output()
-        .map_err(|e| e.to_string())?;
-    let res = if out.status.success() {
-        let dst = scratch.join("vibesql-server");
-        std::fs::copy(format!("{}/debug/vibesql-server", target), &dst).map(|_| dst).map_err(|e| e.to_string())
-    } else {
-        let err = String::from_utf8_lossy(&out.stderr);
-        Err(err.lines().filter(|l| l.starts_with("error")).take(5).collect::<Vec<_>>().join("\n"))
-    };
-    unsafe {
-        libc::flock(lock.as_raw_fd(), libc::LOCK_UN);
-    }
-    res
-}
-
-fn start_server(bin: &std::path::Path, dir: &std::path::Path, method: &str, pwfile: &std::path::Path) -> Result<ServerProc, String> {
-    for _attempt in 0..3 {
-        let port = {
-            let l = std::net::TcpListener::bind("127.0.0.1:0").map_err(|e| e.to_string())?;
-            l.local_addr().map_err(|e| e.to_string())?.port()
-        };
-        let _ = std::fs::create_dir_all(dir);
-        let cfg = format!(
-            "[server]\nhost = \"127.0.0.1\"\nport = {}\nmax_connections = 100\nssl_enabled = false\n\n[auth]\nmethod = \"{}\"\npassword_file = \"{}\"\n\n[logging]\nlevel = \"error\"\n",
-            port,
-            method,
-            pwfile.display()
-        );
-        std::fs::write(dir.join("vibesql-server.toml"), cfg).map_err(|e| e.to_string())?;
-        let log = std::fs::File::create(dir.join("server.log")).map_err(|e| e.to_string())?;
-        let child = std::process::Command::new(bin)
-            .current_dir(dir)
-            .env("RUST_LOG", "error")
-            .env("HOME", dir)
-            .env_remove("XDG_CONFIG_HOME")
-            .stdin(std::process::Stdio::null())
-            .stdout(std::process::Stdio::null())
-            .stderr(log)
-            .spawn()
-            .map_err(|e| e.to_string())?;
-        let mut sp = ServerProc { child, port };
-        for _ in 0..150 {
-            if std::net::TcpStream::connect(("127.0.0.1", port)).is_ok() {
-                return Ok(sp);
-            }
-            if let Ok(Some(_)) = sp.child.try_wait() {
-                break; // exited (port taken?): next attempt
-            }
-            std::thread::sleep(std::time::Duration::from_millis(100));
-        }
-    }
-    Err(format!("server did not start listening; log: {}", std::fs::read_to_string(dir.join("server.log")).unwrap_or_default().chars().take(600).collect::<String>()))
-}
-
 fn read_frame(s: &mut std::net::TcpStream) -> Option<(u8, Vec<u8>)> {
     use std::io::Read;
     let mut h = [0u8; 5];
@@ -467,10 +387,10 @@ fn read_frame(s: &mut std::net::TcpStream) -> Option<(u8, Vec<u8>)> {
 
 /// one login attempt as a PostgreSQL client would make it; `secret` maps the salt (md5) to the
 /// content of the PasswordMessage.  Returns (accepted, salt used, what was sent) or an error text.
-fn wire_login(port: u16, user: &str, database: Option<&str>, secret: &dyn Fn(Option<[u8; 4]>) -> String) -> Result<(bool, [u8; 4], String), String> {
+fn wire_login(port: u16, user: &str, database: Option<&str>, secret: &dyn Fn(Option<[u8; 4]>) -> Vec<u8>) -> Result<(bool, [u8; 4], Vec<u8>), String> {
     use std::io::Write;
     let mut s = std::net::TcpStream::connect(("127.0.0.1", port)).map_err(|e| format!("connect: {}", e))?;
-    let _ = s.set_read_timeout(Some(std::time::Duration::from_secs(20)));
+    let _ = s.set_read_timeout(Some(std::time::Duration::from_secs(90)));
     let _ = s.set_nodelay(true);
     let mut body = 196608i32.to_be_bytes().to_vec();
     for (k, v) in [("user", Some(user)), ("database", database)] {
@@ -493,13 +413,13 @@ fn wire_login(port: u16, user: &str, database: Option<&str>, secret: &dyn Fn(Opt
     let salt = match code {
         3 => None,
         5 if b.len() == 8 => Some([b[4], b[5], b[6], b[7]]),
-        0 => return Ok((true, [0; 4], "(no secret asked)".into())),
+        0 => return Ok((true, [0; 4], b"(no secret asked)".to_vec())),
         _ => return Err(format!("unexpected authentication request {}", code)),
     };
     let sent = secret(salt);
     let mut m = vec![b'p'];
     m.extend_from_slice(&((4 + sent.len() + 1) as u32).to_be_bytes());
-    m.extend_from_slice(sent.as_bytes());
+    m.extend_from_slice(&sent);
     m.push(0);
     s.write_all(&m).map_err(|e| format!("send password: {}", e))?;
     let accepted = matches!(read_frame(&mut s), Some((b'R', b)) if b == [0, 0, 0, 0]);
@@ -509,7 +429,7 @@ fn wire_login(port: u16, user: &str, database: Option<&str>, secret: &dyn Fn(Opt
 
 fn wire_family(cx: &mut Ctx, args: &Args, rng: &mut Rng) {
     let t0 = std::time::Instant::now();
-    let built = build_server(&args.scratch);
+    let built = wiresrv::build_server(&args.scratch);
     cx.rep.extra.insert("server_build_s".into(), serde_json::json!(t0.elapsed().as_secs_f64()));
     let bin = match built {
         Ok(b) => b,
@@ -521,7 +441,23 @@ fn wire_family(cx: &mut Ctx, args: &Args, rng: &mut Rng) {
     // accounts: two Argon2 (pre-hashed lines, so the stored strings are known), three {MD5}; an
     // account exists for each database name used below ("shop", "store")
     let mut users: Vec<User> = vec![];
-    for (name, pw, md5) in [("alice", "alicepw", false), ("store", "storepw", false), ("bob", "bobpw", true), ("shop", "shoppw", true), ("dave", "", true)] {
+    // non-ASCII accounts: 2-, 3-, 4-byte code points in names and passwords; precomposed (U+00E9) vs
+    // decomposed (e + U+0301) passwords; "Ã©" is what the UTF-8 bytes of "é" look like when they
+    // are (wrongly) decoded as Latin-1 — a different password that must stay different
+    let accounts: Vec<(&str, &str, bool)> = vec![
+        ("alice", "alicepw", false),
+        ("store", "storepw", false),
+        ("bob", "bobpw", true),
+        ("shop", "shoppw", true),
+        ("dave", "", true),
+        ("张伟", "密码🔑", false),
+        ("renee", "\u{e9}", false),
+        ("anna_a", "Ã©", false),
+        ("zoë", "pässwörd€𝄞", true),
+        ("rene2", "e\u{301}", true),
+        ("anna_m", "Ã©", true),
+    ];
+    for (name, pw, md5) in accounts.iter().cloned() {
         if md5 {
             users.push(User { name: name.into(), stored: format!("{{MD5}}{}", pw), entry: Entry::Md5(pw.into()) });
         } else {
@@ -535,48 +471,63 @@ fn wire_family(cx: &mut Ctx, args: &Args, rng: &mut Rng) {
     let _ = std::fs::write(&pwfile, users.iter().map(|u| format!("{}:{}\n", u.name, u.stored)).collect::<String>());
     for method in ["password", "md5"] {
         let dir = args.scratch.join(format!("srv-{}", method));
-        let srv = match start_server(&bin, &dir, method, &pwfile) {
+        let srv = match wiresrv::start_server(&bin, &dir, method, Some(&pwfile)) {
             Ok(s) => s,
             Err(e) => {
                 cx.rep.fail(FailKind::Oracle, None, "the server does not start with a generated configuration and password file", &format!("method {}: {}", method, e));
                 continue;
             }
         };
-        let names = ["alice", "store", "bob", "shop", "dave", "mallory"];
+        let names = ["alice", "store", "bob", "shop", "dave", "mallory", "张伟", "renee", "anna_a", "zoë", "rene2", "anna_m", "zoÃ«"];
         for user in names {
+            let ascii_account = user.is_ascii() && !user.starts_with("anna") && !user.starts_with("rene");
             let own = users.iter().find(|u| u.name == user);
             let own_pw = match own.map(|u| &u.entry) {
                 Some(Entry::Argon(p)) | Some(Entry::Md5(p)) => p.clone(),
                 _ => "guess".to_string(),
             };
-            for database in [None, Some(user), Some("shop"), Some("store"), Some("alice"), Some("nosuchdb")] {
+            let dbs: Vec<Option<&str>> = if ascii_account { vec![None, Some(user), Some("shop"), Some("store"), Some("alice"), Some("nosuchdb")] } else { vec![None, Some("数据库")] };
+            for database in dbs {
                 // presented passwords: the user's own, the one of the account named like the database, wrong, empty
                 let db_pw = database.and_then(|d| users.iter().find(|u| u.name == d)).map(|u| match &u.entry {
                     Entry::Argon(p) | Entry::Md5(p) => p.clone(),
                     _ => String::new(),
                 });
-                let mut presented: Vec<(String, &str)> = vec![(own_pw.clone(), "own_password"), ("wrong".into(), "wrong_password")];
+                let mut presented: Vec<(Vec<u8>, &str)> = vec![(own_pw.clone().into_bytes(), "own_password"), (b"wrong".to_vec(), "wrong_password")];
                 if let Some(p) = db_pw {
                     if p != own_pw {
-                        presented.push((p, "password_of_account_named_like_database"));
+                        presented.push((p.into_bytes(), "password_of_account_named_like_database"));
                     }
                 }
                 if rng.chance(1, 3) {
-                    presented.push(("".into(), "empty_password"));
+                    presented.push((vec![], "empty_password"));
+                }
+                if !ascii_account && database.is_none() {
+                    // the own password's bytes re-decoded as Latin-1 (what a decoder without UTF-8
+                    // validation would compare), the other normalisation form, the string whose Latin-1
+                    // mis-decoding equals the stored "Ã©", and byte strings that are not UTF-8 at all
+                    presented.push((own_pw.bytes().map(char::from).collect::<String>().into_bytes(), "latin1_redecoding_of_own_password"));
+                    presented.push(("\u{e9}".as_bytes().to_vec(), "precomposed_e_acute"));
+                    presented.push(("e\u{301}".as_bytes().to_vec(), "decomposed_e_acute"));
+                    presented.push((vec![0xe9], "latin1_byte_e9_invalid_utf8"));
+                    presented.push((vec![0xc3], "truncated_utf8"));
+                    presented.push((vec![0xff, 0xfe, 0x41], "invalid_utf8"));
                 }
                 for (pw, class) in presented {
-                    // md5: the client answers with "md5" + digest(presented password, USER it logs in as, salt)
+                    // md5: the client answers with "md5" + digest(presented password, USER it logs in as, salt);
+                    // a presented byte string that is not UTF-8 is sent as it is
                     let u2 = user.to_string();
                     let pw2 = pw.clone();
                     let is_md5 = method == "md5";
-                    let mk = move |salt: Option<[u8; 4]>| -> String {
-                        match (is_md5, salt) {
-                            (true, Some(s)) => format!("md5{}", pg_digest(&pw2, &u2, &s)),
+                    let mk = move |salt: Option<[u8; 4]>| -> Vec<u8> {
+                        match (is_md5, salt, std::str::from_utf8(&pw2)) {
+                            (true, Some(s), Ok(p)) => format!("md5{}", pg_digest(p, &u2, &s)).into_bytes(),
                             _ => pw2.clone(),
                         }
                     };
+                    let pw_show = String::from_utf8_lossy(&pw).to_string();
                     let res = wire_login(srv.port, user, database, &mk);
-                    let id = format!("login {} user={} database={:?} presented={:?}({})", method, user, database, pw, class);
+                    let id = format!("login {} user={} database={:?} presented={:?} [{}] ({})", method, user, database, pw_show, hx(&pw), class);
                     cx.rep.case(&id, own.is_some());
                     cx.rep.count(&format!("wire_{}_{}", method, class));
                     cx.rep.count(&format!("wire_database_{}", match database { None => "absent", Some(d) if d == user => "same_as_user", Some("nosuchdb") => "no_such_account", _ => "other_account" }));
@@ -590,8 +541,8 @@ fn wire_family(cx: &mut Ctx, args: &Args, rng: &mut Rng) {
                     cx.rep.count(if accepted { "wire_accepted" } else { "wire_rejected" });
                     // oracle: the decision is about USER's entry and the password presented — the database is irrelevant
                     let want = match (method, own.map(|u| &u.entry)) {
-                        ("password", Some(Entry::Argon(p))) => *p == pw,
-                        ("md5", Some(Entry::Md5(p))) => *p == pw,
+                        ("password", Some(Entry::Argon(p))) => p.as_bytes() == &pw[..],
+                        ("md5", Some(Entry::Md5(p))) => p.as_bytes() == &pw[..],
                         _ => false,
                     };
                     if accepted != want {
@@ -599,18 +550,18 @@ fn wire_family(cx: &mut Ctx, args: &Args, rng: &mut Rng) {
                             FailKind::Oracle,
                             None,
                             if accepted { "wire-level login accepted without the password of the user logging in" } else { "wire-level login with the user's own password rejected" },
-                            &format!("{}\npassword file:\n{}sent in PasswordMessage: {:?} (salt {:?})\nserver: {}  expected: {}", id, users.iter().map(|u| format!("{}:{}\n", u.name, u.stored)).collect::<String>(), sent, salt, if accepted { "AuthenticationOk" } else { "rejected" }, want),
+                            &format!("{}\npassword file:\n{}sent in PasswordMessage: {:?} [{}] (salt {:?})\nserver: {}  expected: {}", id, users.iter().map(|u| format!("{}:{}\n", u.name, u.stored)).collect::<String>(), String::from_utf8_lossy(&sent), hx(&sent), salt, if accepted { "AuthenticationOk" } else { "rejected" }, want),
                         );
                     }
                     // correspondence: the model's login step (lookup by user)
                     let (po, vo) = match own {
                         Some(u) => match PasswordHash::new(&u.stored) {
-                            Ok(h) => (true, method == "password" && Argon2::default().verify_password(sent.as_bytes(), &h).is_ok()),
+                            Ok(h) => (true, method == "password" && Argon2::default().verify_password(&sent, &h).is_ok()),
                             Err(_) => (false, false),
                         },
                         None => (false, false),
                     };
-                    let req = format!("login {} {} {} {} {} {} {} {}", method, store_sx(&users), hx(user.as_bytes()), hx(database.unwrap_or(user).as_bytes()), hx(sent.as_bytes()), hx(&salt), po as u8, vo as u8);
+                    let req = format!("login {} {} {} {} {} {} {} {}", method, store_sx(&users), hx(user.as_bytes()), hx(database.unwrap_or(user).as_bytes()), hx(&sent), hx(&salt), po as u8, vo as u8);
                     let reply = cx.model.ask(&req);
                     cx.rep.traces_validated += 1;
                     if reply != if accepted { "1" } else { "0" } {
@@ -727,8 +678,27 @@ fn main() {
         cx.verify_md5_case(&s, &users, "u", &pg_digest("p", "u", &[1, 2, 3, 4]), &[1, 2, 3, 4], "bare");
     }
 
+    // ---- non-ASCII credentials at function level: precomposed / decomposed / Latin-1 look-alike passwords,
+    //      2-, 3-, 4-byte code points in user names: each password presented to each user ----
+    {
+        let creds = [("renée", "\u{e9}"), ("rene2", "e\u{301}"), ("anna", "Ã©"), ("张伟", "密码🔑"), ("zoë", "pässwörd€𝄞")];
+        let users: Vec<User> = creds.iter().map(|(n, p)| User { name: n.to_string(), stored: format!("{{MD5}}{}", p), entry: Entry::Md5(p.to_string()) }).collect();
+        let store = build(&users);
+        for (n, _) in &creds {
+            for (_, p) in &creds {
+                let salt = [0x80, 0xff, 0x00, 0x7f];
+                cx.verify_md5_case(&store, &users, n, &format!("md5{}", pg_digest(p, n, &salt)), &salt, "non_ascii_cross");
+                let latin1: String = p.bytes().map(char::from).collect();
+                cx.verify_md5_case(&store, &users, n, &format!("md5{}", pg_digest(&latin1, n, &salt)), &salt, "non_ascii_latin1_redecoded");
+                cx.verify_clear_case(&store, &users, n, p, "non_ascii_cross");
+            }
+            let n_latin1: String = n.bytes().map(char::from).collect();
+            cx.verify_md5_case(&store, &users, &n_latin1, &format!("md5{}", pg_digest("\u{e9}", &n_latin1, &[1, 2, 3, 4])), &[1, 2, 3, 4], "non_ascii_user_latin1_redecoded");
+        }
+    }
+
     // ---- generated stores: every storage route × legitimate, near-miss and attacker responses ----
-    let rounds = args.n(50, 3000);
+    let rounds = args.n(50, 400);
     let others = other_entries();
     for i in 0..rounds {
         let mut r = rng.fork();
